@@ -317,6 +317,20 @@ for _p in ("C01", "C04", "C08"):
     CLAIMS[_p]["technique"] += " + generic lifting of Level-M invariants to every market of every simulation (SimMarketLift.v)"
 
 
+def _orders_tie():
+    import translated
+    return translated.orders_tie()
+
+
+CLAIMS["C20"]["ties"] = (_orders_tie,)
+CLAIMS["C20"]["technique"] += " + source-to-Gallina translator tie for the order lists built by ArbitrageAgent and MarketMakerAgent (regenerated and re-proved every run)"
+CLAIMS["C20"]["text"] += (" Translator tie (harness/py2coq_orders.py, fail-closed Python-ast -> Gallina lists of orders): ArbitrageAgent._submit_orders and MarketMakerAgent.submit_orders "
+                          "are REGENERATED from /repo's source on every run and coq/translated/OrdersC20Proofs.v is re-checked against the generated text: on an accessible index market "
+                          "with equal outstanding shares the arbitrage agent's list is the model's arb_orders (the function the C20 theorems are about), it orders nothing elsewhere or "
+                          "while a market is stopped, and refuses unequal shares; the market maker's two quotes are the model's mm_orders given the base price its get_base_price returns "
+                          "(that helper's max / min scan is modelled by hand). The FCN agent (log, exp, Gaussian draws) is tied by the differential correspondence only.")
+
+
 def _index_tie():
     import translated
     return translated.index_tie()
